@@ -1716,7 +1716,27 @@ def oracle_C17(inp):
             dp.rmdir()
         if len(out) > 3:
             break
-    return {"failures": out, "evaluations": total + 1 + len(cases) + 1}
+    # 4. TWO ruined sidecars in one process: each read is its own answer (and stays it after the other read)
+    try:
+        setup()
+        WriteToPaths().set(sid, **new)
+        dp.write_text(text[:max(1, len(text) // 2)])
+        op = Path(str(conf.get_data_json_path(Sid(other).path())))
+        op.write_text("{ not json")
+        r1 = GetFromPaths().get_data(sid)
+        r2 = GetFromPaths().get_data(other)
+        r1["mine"] = 1      # what a caller does with its own result is its own business
+        r3 = GetFromPaths().get_data(other)
+        r4 = GetFromPaths().get_data(sid, sid_encode=lambda x: None)
+        if dict(r2) != {"sid": other} or dict(r3) != {"sid": other} or {k: v0 for k, v0 in r1.items() if k != "mine"} != {"sid": sid} or dict(r4) != {}:
+            out.append("two ruined sidecars: reads give %r / %r / %r / %r, expected only each Sid's own 'sid' entry (and {} without it)" % (dict(r1), dict(r2), dict(r3), dict(r4)))
+        par = sid.rsplit("/", 1)[0]
+        rows = [dict(r) for r in GetFromPaths().get(par + "/*")]
+        if len({r.get("sid") for r in rows}) != len(rows):
+            out.append("two ruined sidecars: the records of a search repeat a Sid: %r" % rows)
+    except BaseException as e:  # noqa
+        out.append("two ruined sidecars: %s: %s" % (type(e).__name__, e))
+    return {"failures": out, "evaluations": total + 1 + len(cases) + 2}
 
 
 ORACLES = {name[7:]: fn for name, fn in list(globals().items()) if name.startswith("oracle_")}
